@@ -384,7 +384,20 @@ func sctOnce(c *core.Ctx) []byte {
 						l = 0
 					}
 				}
-				scts = append(scts, c.BytesN("sct.data", l))
+				data := c.BytesN("sct.data", l)
+				if c.Chance("sct.listShaped", 1, 6) {
+					// an SCT whose own bytes are shaped like a serialized SCT list (e.g. the result
+					// of an earlier call handed in again): it is one element like any other
+					var inner []byte
+					for j, m := 0, c.Int("sct.listShaped.n", 1, 3); j < m; j++ {
+						e := c.Bytes("sct.listShaped.elem", 1, 20)
+						inner = append(append(inner, byte(len(e)>>8), byte(len(e))), e...)
+					}
+					data = append([]byte{byte(len(inner) >> 8), byte(len(inner))}, inner...)
+					l = len(data)
+					c.Probe("SCT shaped like a serialized SCT list")
+				}
+				scts = append(scts, data)
 				total += l + 2
 				if l > 65535 {
 					tooBig = true
@@ -438,10 +451,33 @@ func TestChannelFaults(t *testing.T) {
 			}
 			blob := refEncode(ch)
 			n := c.Int("nfaults", 1, 3)
+			if c.Chance("hostileMember", 1, 12) {
+				// a well-formed chain whose first certificate map has one more member, under an
+				// unknown key, whose value is nested arrays / maps / tags tens of thousands to
+				// millions deep (nothing in the format nests; a parser that walks "any" value does)
+				depth := c.PickInt("hostileMember.depth", 1<<10, 1<<16, 1<<20, 1<<24)
+				unit := c.PickStr("hostileMember.unit", "\x81", "\xa1\x00", "\xc1", "\x82\x00")
+				nested := append(bytes.Repeat([]byte(unit), depth), 0x00)
+				it, derr := refcbor.Decode(blob, 0)
+				if derr == nil && it.Major == 4 && len(it.Elems) >= 2 && it.Elems[1].Major == 5 {
+					m := it.Elems[1]
+					head := refcbor.AppendHead(nil, 5, uint64(len(m.Elems)/2+1))
+					body := append([]byte(nil), blob[m.Off+m.HeadLen:m.Off+m.Len]...)
+					member := append(refcbor.AppendText(nil, c.PickStr("hostileMember.key", "zz", "a", "extra")), nested...)
+					nb := append(append([]byte(nil), blob[:m.Off]...), head...)
+					nb = append(append(nb, body...), member...)
+					blob = append(nb, blob[m.Off+m.Len:]...)
+					n = 0
+					c.Fault("chain-member-nested-very-deep")
+				}
+			}
 			for i := 0; i < n; i++ {
 				blob = c.CorruptBlob("blob", blob, nil)
 			}
 			plan := c.DrawReaderPlan("certnet.read", len(blob), true)
+			if len(blob) > 300000 {
+				plan = core.ReaderPlan{ErrAt: -1} // (megabytes are not delivered byte by byte)
+			}
 			_, err, pi, alloc := readChain(c, blob, plan)
 			if c.Oracle("C10") {
 				c.CheckTotal("ReadCertChain", len(blob), pi, alloc)
